@@ -276,12 +276,28 @@ func genScen(r *vh.Rand) string {
 		strings.Join(users, ","), strings.Join(defs, "|"), strings.Join(scens, "|"))
 }
 
+// genLong: more entries than the provider's sink buffer (128), so that ammo objects released to
+// the provider's sync.Pool are reused for later entries (state leaking from one entry into a
+// later one through the pooled object would show here).
+func genLong(r *vh.Rand) string {
+	n := r.Range(300, 420)
+	var es []string
+	for i := 0; i < n; i++ {
+		es = append(es, genEntry(r, fmt.Sprintf("t%d", i), len(methods)))
+	}
+	return fmt.Sprintf("json d %s %d %d %d %d %s", vh.B(r.Chance(1, 2)), r.Range(0, 3), r.Range(1, 4),
+		r.PickInt([]int{0, 2000}), n, strings.Join(es, " "))
+}
+
 func gen(r *vh.Rand, tier string) []string {
 	n := 220
 	if tier == "thorough" {
 		n = 4000
 	}
 	var out []string
+	for i := 0; i < 1+n/400; i++ {
+		out = append(out, genLong(r))
+	}
 	for i := 0; i < n; i++ {
 		if i%5 < 3 {
 			out = append(out, genJSON(r))
